@@ -509,6 +509,7 @@ func generate(c *GenCtx) []Op {
 		genEquality(c)
 		genLet(c)
 		genSkeleton(c, 2)
+		genSlices(c)
 	case "C02":
 		genArgs(c)
 		genTyped(c, c.n(20000, 400000), 3)
